@@ -91,7 +91,10 @@ func (t *JitterTicker) schedule() {
 	if t.timer != nil {
 		t.timer.Stop()
 	}
-	next := t.d + time.Duration(rand.Int63n(int64(t.jitter*2))) - (t.jitter)
+	next := t.d
+	if t.jitter > 0 {
+		next += time.Duration(rand.Int63n(int64(t.jitter*2))) - (t.jitter)
+	}
 
 	// To prevent a latent goroutine already spawned but not yet running the below function from
 	// delivering a tick after Stop/Reset.
